@@ -20,7 +20,7 @@ Is(e) == l <= Len(Trace) /\ E.ev = e
 
 TReset == /\ Is("Reset") /\ Consume
           /\ tProf' = [p \in Prof |-> TProf0] /\ tDev' = [d \in Dev |-> TDev0] /\ dirty' = {}
-          /\ seenProf' = [p \in Prof |-> NoProf] /\ seenDev' = [d \in Dev |-> NoDev]
+          /\ seenProf' = [p \in Prof |-> NoProf] /\ seenDev' = [d \in Dev |-> NoDev] /\ seenOwner' = [d \in Dev |-> None] /\ quiet' = {}
           /\ profiles' = [p \in Prof |-> NoProf] /\ devices' = [d \in Dev |-> NoDev]
           /\ dev2prof' = [d \in Dev |-> None] /\ linked2dev' = [i \in Linked |-> None]
           /\ ded2dev' = [e \in Ded |-> None] /\ human2dev' = [k \in Human \X Prof |-> None]
@@ -32,6 +32,7 @@ TGhost == /\ Consume
           /\ \/ Is("Attach") /\ Attach(E.d, E.p)
              \/ Is("Detach") /\ Detach(E.d)
              \/ Is("Move") /\ Move(E.d, E.p)
+             \/ Is("MoveQuiet") /\ MoveQuiet(E.d, E.p)
              \/ Is("SetLinked") /\ SetLinked(E.d, E.k)
              \/ Is("SwapLinked") /\ SwapLinked(E.d, E.k)
              \/ Is("ToggleDed") /\ ToggleDed(E.d, E.k)
